@@ -312,6 +312,9 @@ pub fn rand_layout(r: &mut Rng) -> (Layout, String) {
     if r.chance(1, 4) { l.prefix = { let n = r.below(200) as usize; r.bytes(n) }; }
     if r.chance(1, 40) { l.prefix = { let n = r.range(30000, 65536) as usize; r.bytes(n) }; }
     l.zip64_eocd = r.chance(1, 6);
+    // the forward search for the ZIP64 end record probes every offset of the prefix; the list-based model
+    // pays O(offset) per probe, so keep prefixes of ZIP64 layouts moderate (the search itself is still long)
+    if l.zip64_eocd && l.prefix.len() > 3000 { l.prefix.truncate(3000); }
     if r.chance(1, 10) { l.gap_before_cd = { let n = r.below(16) as usize; r.bytes(n) }; }
     if !l.zip64_eocd && r.chance(1, 8) { l.trailing = vec![0u8; r.below(40) as usize]; }
     let e = format!("{};{};{};{}", n, l.prefix.len(), hex(&l.comment), exp.join(";"));
@@ -361,8 +364,8 @@ fn lie(r: &mut Rng, l: &mut Layout) {
             2 => l.lie_cd_offset = Some(*r.pick(&edge)),
             3 => l.lie_comment_len = Some(*r.pick(&edge) as u16),
             4 => l.lie_disk = Some((r.below(3) as u16, r.below(3) as u16)),
-            5 => { l.zip64_eocd = true; l.lie_locator_offset = Some(*r.pick(&edge)); }
-            6 => { l.zip64_eocd = true; l.lie_eocd64_disks = Some((r.below(2) as u32, 1)); }
+            5 => { l.zip64_eocd = true; l.prefix.truncate(3000); l.lie_locator_offset = Some(*r.pick(&edge)); }
+            6 => { l.zip64_eocd = true; l.prefix.truncate(3000); l.lie_eocd64_disks = Some((r.below(2) as u32, 1)); }
             k if n > 0 => {
                 let i = r.below(n as u64) as usize;
                 let e = &mut l.entries[i];
